@@ -7,7 +7,7 @@ Oracle: independent strict decoder / encoder of harness/py/ber.py, datagram coun
 from lib import codec, gen, privhist, vf
 import ber
 
-MAX = 4080
+MAX = 4080      # replaced in main() by BUF_MAX_SIZE as the sources say now (Gen/Constants.v)
 
 
 def rop(rng):
@@ -15,13 +15,13 @@ def rop(rng):
     if t == 0:
         return "u8:%d" % rng.randrange(256)
     if t == 1:
-        return "push:" + gen.hx(gen.rbytes(rng, rng.choice([0, 1, 2, 5, 100, 1000, 2040, 4076, 4079, 4080, 4081]), False))
+        return "push:" + gen.hx(gen.rbytes(rng, rng.choice([0, 1, 2, 5, 100, 1000, MAX // 2, MAX - 4, MAX - 1, MAX, MAX + 1]), False))
     if t == 2:
-        return "taglen:%d:%d" % (rng.randrange(256), rng.choice([0, 1, 127, 128, 255, 256, 4080, 65535, rng.randrange(65536)]))
+        return "taglen:%d:%d" % (rng.randrange(256), rng.choice([0, 1, 127, 128, 255, 256, MAX, 65535, rng.randrange(65536)]))
     if t == 3:
         return "tagged:%d:%s" % (rng.randrange(256), gen.hx(gen.rbytes(rng, rng.choice([0, 1, 126, 127, 128, 253, 254, 255, 256, 2000]), False)))
     if t == 4:
-        return "skip:%d" % rng.choice([0, 1, 8, 100, 4080, 5000])
+        return "skip:%d" % rng.choice([0, 1, 8, 100, MAX, MAX + 920])
     if t == 5:
         return "reset"
     if t == 6:
@@ -34,7 +34,7 @@ def rop(rng):
 def sized_community_request(total):
     """A v2c Get of one OID whose datagram is exactly `total` octets (total >= 40), by community length."""
     oid = ber.oid_content([1, 3, 6, 1, 2, 1, 1, 1, 0])
-    for n in range(0, 4200):
+    for n in range(0, total + 200):
         m = ber.msg_community(1, b"c" * n, ber.pdu(0xA0, 2 ** 31 - 1, 0, 0, [ber.varbind(ber.tlv(6, oid), b"\x05\x00")]))
         if len(m) == total:
             return n
@@ -47,6 +47,8 @@ def main(argv):
     c = vf.Check("C17", argv)
     thorough = c.tier == "thorough"
     c.prove()
+    global MAX
+    MAX = vf.constant("BUF_MAX_SIZE", 4080)
     cd = codec.Codec(c)
     if not cd.ok:
         return c.finish("n/a")
@@ -90,7 +92,7 @@ def main(argv):
         oids = [oid] * n
         lines.append("emit2 7075626c6963 get:1:%s" % (",".join(o.hex() for o in oids) or "-"))
         expect.append(ber.msg_community(1, b"public", ber.pdu(0xA0, 1, 0, 0, [ber.varbind(ber.tlv(6, o), b"\x05\x00") for o in oids])))
-    for n in list(range(100, 140)) + list(range(240, 270)) + [1000, 4060, 4070, 4080]:   # one long OID
+    for n in list(range(100, 140)) + list(range(240, 270)) + [1000, MAX - 20, MAX - 10, MAX]:   # one long OID
         o = ber.oid_content([1, 3] + [1] * n)
         lines.append("emit1 70 getnext:5:%s" % o.hex())
         expect.append(ber.msg_community(0, b"p", ber.pdu(0xA1, 5, 0, 0, [ber.varbind(ber.tlv(6, o), b"\x05\x00")])))
@@ -136,7 +138,7 @@ def main(argv):
     scs = []
     for ver in ("v1", "v2c"):
         steps = []
-        for total in list(range(4074, 4088)) + [130, 131, 258, 259, 260, 4200, 9000]:
+        for total in list(range(MAX - 6, MAX + 8)) + [130, 131, 258, 259, 260, MAX + 120, 2 * MAX + 840]:
             n = sized_community_request(total)
             if n is None:
                 continue
